@@ -162,7 +162,7 @@ func BFS[I any](c *Ctx, m *Machine[I]) bfsStats {
 	type node struct {
 		hist []int
 		key  string
-		noop bool // reached through a transition that led back to a state on its own path (kept although its key was known)
+		noop bool     // reached through a transition that led back to a state on its own path (kept although its key was known)
 		path []string // keys of the states this history went through (kept for the first NoopProbeDepth levels only)
 	}
 	st := bfsStats{}
